@@ -213,7 +213,7 @@ def p7(ctx):
         for name in ("find_position", "find_prev_and_next"):
             b = ctx.facts.one(r"^%s::Arena::%s$" % (fl, name))
             ev, res = ctx.eval(b, no_inline=NOINLINE)
-            names = {l["name"]: i for i, l in enumerate(b.locals) if l["name"]}
+            names = search_roles(b, res)     # by type and data flow, not by source name
             need = ("current", "current_node", "current_node_size", "next_offset")
             if any(n not in names for n in need):
                 from facts import AnchorError
